@@ -16,10 +16,13 @@ ID = "C18"
 LEVEL = "exploration"
 RULE = ("Hypothesis draws an existing dataset (single file | hive | partitioned hive; 1-4 row groups) and ONE rejected operation from "
         "a catalogue, with the offending element at a drawn position (first/middle/last column; first or later row group of the new "
-        "data): unsupported dtype (complex), non-text or duplicate column names, a missing value in a column written non-nullable, "
+        "data): unsupported dtype (complex), non-text or duplicate column names, a missing value in a text, bytes or categorical column "
+        "written non-nullable, a value JSON cannot express in a column stored as JSON, "
         "values not encodable as declared (lone surrogate in text, bytes in a text column, text in an int-encoded object column), "
         "append with a missing/extra column, with another file scheme or partitioning, unknown codec (top level or one column), "
-        "unknown column in columns= / filters=; issued as a fresh write next to the dataset, as append=True, or as "
+        "unknown column in columns= / filters=; beyond the listed kinds, under the same principle: a refused key/value update, and a "
+        "valid append interrupted by KeyboardInterrupt inside an I/O call chosen from a dry run (any write, the footer's included); "
+        "issued as a fresh write next to the dataset, as append=True, through a kept handle, or as "
         "append='overwrite'. Oracle: the call ends in a Python Exception, and afterwards a fresh handle reads exactly the snapshot "
         "taken before (multi-file: the metadata/directory agreement holds for referenced files). The operation goes through a "
         "pass-through event counter: non-trivial = the exception came after at least one write event (bytes or files were already written).")
